@@ -11,8 +11,10 @@ from .specs import make_store, locked_lists
 IN_PROGRESS = "StoreObjectForPidAlreadyInProgress"
 
 
-def outcome_key(out, op=None):
+def outcome_key(out, op=None, faulted=False):
     cls, val = out
+    if faulted and cls != "ok":
+        return ("failed",)  # which error class a call hit by an injected I/O error ends with is not prescribed
     if op is not None and op[0] == "retrieve_meta" and cls in ("ValueError", "FileNotFoundError"):
         return ("notfound",)  # C12: 'a reader gets one complete version or a not-found error'
     if cls != "ok":
@@ -62,7 +64,8 @@ class LinScenario(engine_t.Scenario):
     def terminal(self, ex, root):
         if ex.deadlock is not None:
             return ("DEADLOCK", tuple((n, op[:2] if op else None) for n, op in ex.deadlock))
-        outs = tuple((n, tuple(outcome_key(o, self.threads[n][i]) for i, o in enumerate(ex.results[n])))
+        fl = getattr(self, "faults", None) or {}
+        outs = tuple((n, tuple(outcome_key(o, self.threads[n][i], n in fl and i == 0) for i, o in enumerate(ex.results[n])))
                      for n in sorted(ex.results))
         obs = self.observe_store(ex.store, root)
         return ("END", outs, obs["api"], obs["state"], obs["residue"], obs["locked"], obs["followups"])
@@ -92,9 +95,19 @@ class LinScenario(engine_t.Scenario):
             env.set_root(root)
             store = make_store(root, self.p, {"USE_MULTIPROCESSING": "True" if self.mode == "mp" else "False"})
             results = {n: [None] * len(self.threads[n]) for n in self.threads}
+            faults = getattr(self, "faults", None) or {}
             for n, i, op in perm:
-                results[n][i] = O.run(store, op, self.ctx)
-            outs = tuple((n, tuple(outcome_key(o, self.threads[n][i]) if o is not None else ("ABSENT",)
+                if n in faults and i == 0:
+                    # the same injected fault as in the concurrent run (first call of that thread)
+                    from . import engine_f
+                    env.CUR.w = engine_f.SeqFaultWorker(faults[n])
+                    try:
+                        results[n][i] = O.run(store, op, self.ctx)
+                    finally:
+                        env.CUR.w = None
+                else:
+                    results[n][i] = O.run(store, op, self.ctx)
+            outs = tuple((n, tuple(outcome_key(o, self.threads[n][i], n in faults and i == 0) if o is not None else ("ABSENT",)
                                    for i, o in enumerate(results[n])))
                          for n in sorted(results))
             obs = self.observe_store(store, root)
